@@ -12,7 +12,7 @@ import (
 func init() {
 	register("C03", &Spec{
 		Title: "Commit's answer is truthful",
-		Explanation: "Decides the structural bookkeeping Commit's answer is computed from: (R1) after every send of a CommitRequest the undetermined-error is recorded before any exit unless the batch is not primary / no RPC error / async commit; (R2) it is cleared only behind a definite store answer and has a single writer; (R3) every cleanup (rollback) dispatch is guarded by 'not undetermined' and by 'not committed'/'error'; (R4) an undetermined state is reported as ErrResultUndetermined and commitTxn returns nil after an error only when committed; (R5) async/1PC prewrite records undetermined RPC errors and region-level UndeterminedResult; (R6) a CommitTsExpired rejection is never treated as success without a re-send; (R7) `committed` is set only behind a clean commit answer. NOT decided: truthfulness under actual fault sequences (needs executions).",
+		Explanation: "Decides the structural bookkeeping Commit's answer is computed from: (R1) after every send of a CommitRequest the undetermined-error is recorded before any exit unless the batch is not primary / no RPC error / async commit; (R2) it is cleared only behind a definite store answer and has a single writer; (R3) every cleanup (rollback) dispatch is guarded by 'not undetermined' and by 'not committed'/'error'; (R4) an undetermined state is reported as ErrResultUndetermined and commitTxn returns nil after an error only when committed; (R5) async/1PC prewrite records undetermined RPC errors and region-level UndeterminedResult; (R6) a CommitTsExpired rejection is never treated as success without a re-send; (R7) `committed` is set only behind a clean commit answer; (R8) the request sender's recorded RPC error is never cleared or overwritten with nil during a call. NOT decided: truthfulness under actual fault sequences (needs executions).",
 		Run: runC03,
 	})
 }
@@ -346,7 +346,50 @@ func runC03(c *core.Ctx) {
 			}
 		}
 	}
+	// ---- R8: the sender's RPC error is sticky for the whole retry sequence ---------------
+	{
+		a := rule(c, "C03.R8")
+		fRPC := a.field(pkgLocate, "RegionRequestSender", "rpcError")
+		if fRPC != nil {
+			ws := p.WritersOf(fRPC)
+			n := 0
+			for _, w := range ws {
+				key := writerKey(w, fRPC)
+				if fname(w.Fn) == "(*internal/locate.RegionRequestSender).SetRPCError" {
+					continue // exported test hook (frozen exception)
+				}
+				n++
+				if w.Val == nil || isNil(w.Val) {
+					a.viol(key, w.Instr, "the recorded RPC error is cleared: a lost response in an earlier attempt of the same call would no longer be reported as undetermined")
+					continue
+				}
+				val := w.Val
+				g, wit := core.Guarded(w.Fn, w.Instr, core.PIsNil(func(v ssa.Value) bool {
+					return v == val || core.Strip(v) == core.Strip(val) || sameLoad(v, val)
+				}), false)
+				a.check(g, key, w.Instr, "only a non-nil send error is recorded", "rpcError may be overwritten with nil: "+a.w(wit))
+			}
+			if n == 0 {
+				a.violAt("writers of rpcError", "-", "the sender no longer records RPC errors: undetermined results cannot be detected")
+			}
+		}
+	}
 	_ = types.Typ
+}
+
+// sameLoad: two loads of the same field address expression (same field of the same base).
+func sameLoad(a, b ssa.Value) bool {
+	ua, ok1 := core.Strip(a).(*ssa.UnOp)
+	ub, ok2 := core.Strip(b).(*ssa.UnOp)
+	if !ok1 || !ok2 {
+		return false
+	}
+	fa, ok1 := ua.X.(*ssa.FieldAddr)
+	fb, ok2 := ub.X.(*ssa.FieldAddr)
+	if !ok1 || !ok2 {
+		return false
+	}
+	return fa.Field == fb.Field && core.AddrPath(fa.X) == core.AddrPath(fb.X)
 }
 
 // avoidBoth is the automaton "a path that has established BOTH a=false and b=false is
